@@ -279,6 +279,13 @@ def sp_is_dna(ex, e, st):
     return s.forall(lambda v: z3.Or(v == 65, v == 67, v == 71, v == 84), lo, hi)
 
 
+def sp_ascents(ex, e, st):
+    """ascents(s[, upto]): sum of the 0-based positions p < upto (default len(s) - 1) where nucleotide p is followed by a larger one."""
+    s = codes_seq(ex, _seq(ex.ev(e.args[0], st)))
+    hi = _int(ex.ev(e.args[1], st)) if len(e.args) > 1 else s.n - 1
+    return specz3.asum(s.arr, s.start, s.start, add(s.start, hi))
+
+
 def sp_nsucc(ex, e, st):
     """nsucc(X, v, k): number of the four shift successors of v that are marked (non-zero) in the 0/1 array X."""
     x = _seq(ex.ev(e.args[0], st))
@@ -316,5 +323,5 @@ def sp_accepts(ex, e, st):
 SPEC = {
     "forall": sp_forall, "exists": lambda ex, e, st: sp_forall(ex, e, st, exists=True), "implies": sp_implies, "old": sp_old,
     "digits": sp_digits, "val": sp_val, "dval": sp_dval, "val2": sp_val2, "canon": sp_canon, "ipow": sp_ipow, "dig": sp_dig,
-    "same": sp_same_seq, "upd": sp_upd, "accepts": sp_accepts, "nsucc": sp_nsucc, "rsum": sp_rsum, "code": sp_code, "dnav": sp_dnav, "codes": sp_codes, "is_dna": sp_is_dna, "pv": sp_pv, "store": sp_store, "A": sp_A, "D": sp_D, "P": sp_P, "seq_is": sp_seq_is, "seq_is_cons": sp_seq_is_cons, "ite": sp_ite, "isnone": sp_isnone, "cnt": sp_cnt, "ssum": sp_ssum,
+    "same": sp_same_seq, "upd": sp_upd, "accepts": sp_accepts, "ascents": sp_ascents, "nsucc": sp_nsucc, "rsum": sp_rsum, "code": sp_code, "dnav": sp_dnav, "codes": sp_codes, "is_dna": sp_is_dna, "pv": sp_pv, "store": sp_store, "A": sp_A, "D": sp_D, "P": sp_P, "seq_is": sp_seq_is, "seq_is_cons": sp_seq_is_cons, "ite": sp_ite, "isnone": sp_isnone, "cnt": sp_cnt, "ssum": sp_ssum,
 }
